@@ -233,6 +233,9 @@ type Schema struct {
 // CustomDirectiveSDL is declared in every generated schema; the reference executor ignores it.
 const CustomDirectiveSDL = "directive @tag(name: String, n: Int) on FIELD | INLINE_FRAGMENT | FRAGMENT_SPREAD"
 
+// RepeatableDirectiveSDL: a repeatable executable directive (several applications per node)
+const RepeatableDirectiveSDL = "directive @rtag(k: Int, s: String) repeatable on FIELD | INLINE_FRAGMENT | FRAGMENT_SPREAD"
+
 func (s *Schema) Type(n string) *TD {
 	for _, t := range s.Types {
 		if t.Name == n {
@@ -270,6 +273,7 @@ func (s *Schema) SDL() string {
 	sb.WriteString("schema { query: Query }\n")
 	// a custom executable directive with arguments (it survives normalisation, unlike @skip/@include)
 	sb.WriteString(CustomDirectiveSDL + "\n")
+	sb.WriteString(RepeatableDirectiveSDL + "\n")
 	for _, t := range s.Types {
 		switch t.Kind {
 		case "scalar":
